@@ -233,7 +233,6 @@ func runC17(c *Ctx) {
 	checkMountDataSource(c, "mount.data-source")
 	checkReadAtExits(c, "plumbing.readat-exits")
 	checkMountLeafSizeAfterDescriptor(c, "mount.leaf-size-after-descriptor")
-	checkReadAtLoopShape(c, "plumbing.readat-loop-shape")
 }
 
 // guardedUpdateFails: `if _, update := X.Insert(k, v); update { return <non-nil error> }`
